@@ -7,7 +7,25 @@ namespace Rzil
 namespace C06
 open C05 (bind_ok bind_ok_of)
 
-def forInit (v : String) : ILEffect := .setl v (.cast 32 .bfalse (.const true 32 0))
+/-- the init effect of a `for` loop: `SETL(v, x)` (`x`: the literal 0 converted to the counter's type) -/
+def forInit (v : String) (x : ILPure) : ILEffect := .setl v x
+
+/-- the init effect of a `for` loop is a `SETL` of the counter -/
+theorem forInitH_shape {env : CEnv} {v : String} {t : CT} {ini : ILEffect} (h : forInitH env v t = .ok ini) :
+    ∃ x, ini = forInit v x := by
+  unfold forInitH at h
+  split at h
+  · simp only [Except.ok.injEq] at h; exact ⟨_, h.symm⟩
+  · obtain ⟨⟨e, src⟩, h1, h⟩ := bind_ok h
+    simp only [Except.ok.injEq] at h; subst h
+    simp only [compileAssign] at h1
+    obtain ⟨cd, _, h1⟩ := bind_ok h1
+    obtain ⟨s1, _, h1⟩ := bind_ok h1
+    obtain ⟨e1, he, h1⟩ := bind_ok h1
+    simp only [Except.ok.injEq, Prod.mk.injEq] at h1
+    obtain ⟨rfl, _⟩ := h1
+    simp only [destWrite, Except.ok.injEq] at he
+    exact ⟨_, he.symm⟩
 
 theorem invS_decl_none {env : CEnv} {st st' : HSt} {eff b t n}
     (h : compileStmtH env st (.decl t n none) = .ok (eff, b, st')) :
@@ -95,16 +113,19 @@ theorem invS_ite_some {env : CEnv} {st st' : HSt} {eff b c t e}
 
 theorem invS_for0 {env : CEnv} {st st' : HSt} {eff b v cond body}
     (h : compileStmtH env st (.for_ v cond 0 body) = .ok (eff, b, st')) :
-    ∃ cc s1 bs bb s3, compileExprH env (chk st (forInit v) []).2 cond = .ok (cc, s1) ∧
-      compileStmtsH env (postState s1 v utT "++") body = .ok (bs, bb, s3) ∧
+    ∃ x cc s1 bs bb s3, forInitH env v (loopVarTy v cond) = .ok (forInit v x) ∧
+      compileExprH env (chk st (forInit v x) []).2 cond = .ok (cc, s1) ∧
+      compileStmtsH env (postState s1 v (loopVarTy v cond) "++") body = .ok (bs, bb, s3) ∧
       eff = some (chk (chk s3 (mkSeq bs) (bb ++ [tmpName s1.hyb]) true).2
-              (.seqn [(chk st (forInit v) []).1,
+              (.seqn [(chk st (forInit v x) []).1,
                       .repeat_ (condIL env.cfg cc) (chk s3 (mkSeq bs) (bb ++ [tmpName s1.hyb]) true).1]) []).1 ∧
       b = [] ∧
       st' = (chk (chk s3 (mkSeq bs) (bb ++ [tmpName s1.hyb]) true).2
-              (.seqn [(chk st (forInit v) []).1,
+              (.seqn [(chk st (forInit v x) []).1,
                       .repeat_ (condIL env.cfg cc) (chk s3 (mkSeq bs) (bb ++ [tmpName s1.hyb]) true).1]) []).2 := by
   simp only [compileStmtH] at h
+  obtain ⟨ini, h0, h⟩ := bind_ok h
+  obtain ⟨x, rfl⟩ := forInitH_shape h0
   obtain ⟨⟨cc, s1⟩, h1, h⟩ := bind_ok h
   simp only [beq_self_eq_true, ↓reduceIte] at h
   obtain ⟨⟨stepCE, s2⟩, h2, h⟩ := bind_ok h
@@ -112,22 +133,25 @@ theorem invS_for0 {env : CEnv} {st st' : HSt} {eff b v cond body}
   obtain ⟨⟨bs, bb, s3⟩, h3, h⟩ := bind_ok h
   simp only [Except.ok.injEq, Prod.mk.injEq] at h
   obtain ⟨rfl, rfl, rfl⟩ := h
-  exact ⟨cc, s1, bs, bb, s3, h1, h3, rfl, rfl, rfl⟩
+  exact ⟨x, cc, s1, bs, bb, s3, h0, h1, h3, rfl, rfl, rfl⟩
 
 theorem invS_forK {env : CEnv} {st st' : HSt} {eff b v cond step body} (hk : step ≠ 0)
     (h : compileStmtH env st (.for_ v cond step body) = .ok (eff, b, st')) :
-    ∃ cc s1 stepEff stepSrc bs bb s3, compileExprH env (chk st (forInit v) []).2 cond = .ok (cc, s1) ∧
-      compileAssign env (.var v utT) "+=" { il := numberIL ⟨true, 32, 1⟩ step, ty := ⟨true, 32, 1⟩, kind := .lit step }
+    ∃ x cc s1 stepEff stepSrc bs bb s3, forInitH env v (loopVarTy v cond) = .ok (forInit v x) ∧
+      compileExprH env (chk st (forInit v x) []).2 cond = .ok (cc, s1) ∧
+      compileAssign env (.var v (loopVarTy v cond)) "+=" { il := numberIL ⟨true, 32, 1⟩ step, ty := ⟨true, 32, 1⟩, kind := .lit step }
         = .ok (stepEff, stepSrc) ∧
       compileStmtsH env s1 body = .ok (bs, bb, s3) ∧
       eff = some (chk (chk s3 (mkSeq (bs ++ [stepEff])) bb true).2
-              (.seqn [(chk st (forInit v) []).1,
+              (.seqn [(chk st (forInit v x) []).1,
                       .repeat_ (condIL env.cfg cc) (chk s3 (mkSeq (bs ++ [stepEff])) bb true).1]) []).1 ∧
       b = [] ∧
       st' = (chk (chk s3 (mkSeq (bs ++ [stepEff])) bb true).2
-              (.seqn [(chk st (forInit v) []).1,
+              (.seqn [(chk st (forInit v x) []).1,
                       .repeat_ (condIL env.cfg cc) (chk s3 (mkSeq (bs ++ [stepEff])) bb true).1]) []).2 := by
   simp only [compileStmtH] at h
+  obtain ⟨ini, h0, h⟩ := bind_ok h
+  obtain ⟨x, rfl⟩ := forInitH_shape h0
   obtain ⟨⟨cc, s1⟩, h1, h⟩ := bind_ok h
   have : (step == 0) = false := by simp [hk]
   simp only [this, Bool.false_eq_true, ↓reduceIte] at h
@@ -135,7 +159,7 @@ theorem invS_forK {env : CEnv} {st st' : HSt} {eff b v cond step body} (hk : ste
   obtain ⟨⟨bs, bb, s3⟩, h3, h⟩ := bind_ok h
   simp only [Except.ok.injEq, Prod.mk.injEq] at h
   obtain ⟨rfl, rfl, rfl⟩ := h
-  exact ⟨cc, s1, stepEff, stepSrc, bs, bb, s3, h1, h2, h3, rfl, rfl, rfl⟩
+  exact ⟨x, cc, s1, stepEff, stepSrc, bs, bb, s3, h0, h1, h2, h3, rfl, rfl, rfl⟩
 
 theorem invS_jump {env : CEnv} {st st' : HSt} {eff b e}
     (h : compileStmtH env st (.jump e) = .ok (eff, b, st')) :
